@@ -18,6 +18,8 @@ func main() {
 		os.Exit(orch.ChildMain(os.Args[2]))
 	case "check":
 		os.Exit(checks.Main(os.Args[2:]))
+	case "selfcheck":
+		os.Exit(checks.SelfCheck(os.Args[2:]))
 	case "smoke":
 		os.Exit(checks.Smoke(os.Args[2:]))
 	default:
